@@ -3,7 +3,7 @@
 From Coq Require Import List ZArith Bool QArith.
 From Coq.Strings Require Import Byte.
 Import ListNotations.
-From SV Require Import Text C04_PySlice C04_Model C04_Lemmas C04_Str C04_Store C04_Str7.
+From SV Require Import Text C04_PySlice C04_Model C04_Lemmas C04_Str C04_Store C04_Str7 C04_Gap7 C04_GapRev.
 Local Open Scope Z_scope.
 
 (* ---- pyslice_spec: CPython slice normalisation, for every list, every bound in Z or None ---- *)
@@ -681,6 +681,26 @@ Theorem C04_gap_free_positive_step : forall g s sl, (forall c, In c (data s) -> 
 Proof. exact gap_free_positive_step. Qed.
 Print Assumptions C04_gap_free_positive_step.
 
+(* the same for EVERY step (0: ValueError on both sides; negative: as long as no bound lies below -len, where adj
+   clamps to the first residue - the second witness of C04_gap_step_refuted) *)
+Theorem C04_gap_free_any_step : forall g s sl, (forall c, In c (data s) -> in_gap g c = false) ->
+  bound_ok (Z.of_nat (length (data s))) (sl_step sl) (sl_start sl) ->
+  bound_ok (Z.of_nat (length (data s))) (sl_step sl) (sl_stop sl) ->
+  seq_getitem (Some g) s (ISlice sl) = seq_getitem None s (ISlice sl).
+Proof. exact gap_free_any_step. Qed.
+Print Assumptions C04_gap_free_any_step.
+
+(* GAP-AWARE REVERSED SLICES (step -1), any gaps, every start / stop that is None or not below -(number of residues):
+   "selects the same residues as slicing the degapped string" SURVIVES - the result is the reversed run of columns
+   between the two residues, its residues are degapped[a:b:-1] *)
+Theorem C04_gap_reverse_slice : forall g s a b,
+  rev_bound_ok (Z.of_nat (length (degap g (data s)))) a -> rev_bound_ok (Z.of_nat (length (degap g (data s)))) b ->
+  no_lower (data s) = true ->
+  exists r, seq_getitem (Some g) s (ISlice (mkslice a b (Some (-1)))) = Ok (mkseq r (sid s)) /\
+            pyget (degap g (data s)) (ISlice (mkslice a b (Some (-1)))) = Ok (degap g r).
+Proof. exact seq_gap_reverse_slice. Qed.
+Print Assumptions C04_gap_reverse_slice.
+
 (* subscripts commute with upper(): the subscript of a sequence holding lower case is the str subscript of the
    upper-cased residue string, i.e. what the sequence constructed from the same residues gives *)
 Theorem C04_slice_lower_is_slice_of_upper : forall s ix,
@@ -789,3 +809,10 @@ Example C04_witness_slice7 :
   store_final (mk_store [bs "ACGT"%bs]) [DEdit 0 ELower; DSlice 0 None (ISlice (mkslice (Some 1) None None)); DSliceIn 0 None (IInt 0)]
   = [mkseq (bs "A"%bs) (bs "o0"%bs); mkseq (bs "CGT"%bs) (bs "o0"%bs); mkseq (bs "A"%bs) (bs "o0"%bs)].
 Proof. exact (conj eq_refl (conj eq_refl (conj eq_refl eq_refl))). Qed.
+
+Example C04_witness_gap_reverse :
+  rev_bound_ok 3 (Some 1) /\ rev_bound_ok 3 (Some (-3)) /\ bound_ok 4 (Some (-2)) (Some (-4)) /\
+  seq_getitem (Some (bs "-"%bs)) (mkseq (bs "A--C-G-"%bs) (bs "x"%bs)) (ISlice (mkslice (Some 1) (Some (-3)) (Some (-1))))
+    = Ok (mkseq (bs "C--"%bs) (bs "x"%bs)) /\
+  pyget (bs "ACG"%bs) (ISlice (mkslice (Some 1) (Some (-3)) (Some (-1)))) = Ok (bs "C"%bs).
+Proof. exact (conj (proj1 (Z.leb_le (-3) 1) eq_refl) (conj (proj1 (Z.leb_le (-3) (-3)) eq_refl) (conj (or_intror (proj1 (Z.leb_le (-4) (-4)) eq_refl)) (conj eq_refl eq_refl)))). Qed.
